@@ -102,7 +102,17 @@ func newRenterEnv(p *ir.Prog, f *ir.Func) *renterEnv {
 			if l == nil || r == nil || !env.revVars[r] || env.revVars[l] {
 				continue
 			}
-			if defs := wholeDefs(f, l); len(defs) == 1 && types.Identical(l.Type(), r.Type()) {
+			// (every definition of the copy: a helper that builds the value in one of two arms hands it over at each return)
+			all := types.Identical(l.Type(), r.Type())
+			for _, d := range wholeDefs(f, l) {
+				if vs, isSpec := d.Stmt.(*ast.ValueSpec); isSpec && len(vs.Values) == 0 {
+					continue
+				}
+				if d.RHS == nil || !env.revVars[f.ObjOf(d.RHS)] {
+					all = false
+				}
+			}
+			if all {
 				env.revVars[l] = true
 			}
 		}
